@@ -12,7 +12,7 @@ namespace Sq
 def eraseExt (p : Plane) : Plane :=
   { p with lastTypeCode := 0, cap0 := 0, ais := none, category := (0, 0), groundMovement := none,
            altitude := none, altitudeSource := ' ', track := none, trackSource := ' ',
-           cprLat0 := 0, cprLat1 := 0, cprLon0 := 0, cprLon1 := 0, cprTime0 := 0, cprTime1 := 0,
+           cprLat0 := 0, cprLat1 := 0, cprLon0 := 0, cprLon1 := 0, cprTime0 := 0, cprTime1 := 0, cprSurf0 := false, cprSurf1 := false,
            lat := 0, lon := 0, distance := none, positionTimestamp := none,
            surveillanceStatus := ' ', vrate := none, vrateSource := ' ', altitudeGnss := none,
            grspeed := none, heading := none, headingSource := ' ', adsbVersion := none }
@@ -29,7 +29,7 @@ def eraseModeS (p : Plane) : Plane :=
 
 /-- fields the position decoder may assign -/
 def erasePos (p : Plane) : Plane :=
-  { p with cprLat0 := 0, cprLat1 := 0, cprLon0 := 0, cprLon1 := 0, cprTime0 := 0, cprTime1 := 0,
+  { p with cprLat0 := 0, cprLat1 := 0, cprLon0 := 0, cprLon1 := 0, cprTime0 := 0, cprTime1 := 0, cprSurf0 := false, cprSurf1 := false,
            lat := 0, lon := 0, distance := none, positionTimestamp := none }
 
 theorem erasePos_updatePosition (env : Env) (p : Plane) (a b : Nat) :
